@@ -515,7 +515,7 @@ def _job(job):
         part.count("executions")
         part.count("transitions", ex.passes)
         part.outcome((name, ex.obs))
-        part.state((name.split("/")[0], ex.obs))
+        part.state((name, ex.obs))
         for sig, msg in ex.problems:
             part.violation(sig, msg[:500] + f" | schedule={explorer.schedule_of(ex)}", {"case": case, "prefix": explorer.prefix_of(ex)})
         if ex.capped:
